@@ -27,6 +27,11 @@ var c03Quick = []string{
 	"out a && out b || out c; out d",
 	"false || out e -> cast str",
 	"switch { case { false } { out 1 } default { out 2 } }",
+	// the method form of `if` decides on the exit number of the stage before it, which must have finished
+	"function vtf { out yes; return 1 }; vtf -> if { out T } { out F }",
+	// a downstream stage that never reads its stdin finishes first: the statement after the pipeline
+	// still has to wait for the upstream stage (both write to stderr, one after the other)
+	"function vse { out ${out sub} -> null; err first }; vse -> out mid; err second",
 }
 
 // programs run with an 8-byte back-pressure limit (package variable streams.DefaultMaxBufferSize, the
@@ -40,6 +45,37 @@ var c03SmallBuf = []string{
 }
 
 const smallBufPrefix = "[8-byte pipes] "
+
+// expected stdout (and, where given, stderr) of programs whose sequential meaning is beyond doubt. The
+// property itself is differential (every schedule = the free-running result); the literal expectation
+// additionally catches a change that makes *every* explored schedule wrong in the same way while the
+// rare free-running schedule is still right (seeded change C03-r2-1 did exactly that).
+type c03Expect struct {
+	out    string
+	err    string
+	hasErr bool
+}
+
+var c03Expected = map[string]c03Expect{
+	"out x":                                                             {out: "x\n"},
+	"out x -> regexp m/x/":                                              {out: "x\n"},
+	"a [1..3] -> foreach v { out $v }":                                  {out: "1\n2\n3\n"},
+	"%[a b c] -> msort -> [1]":                                          {out: "b"},
+	"a [1..3] -> match 2 -> count":                                      {out: "1"},
+	"out x -> set v; out $v":                                            {out: "x\n"},
+	"v = 1 + 2; out $v":                                                 {out: "3\n"},
+	"if { out x -> regexp m/x/ } then { out yes }":                      {out: "yes\n"},
+	"function vf { out x -> regexp m/x/ }; vf; vf":                      {out: "x\nx\n"},
+	"try { out a; out b -> regexp m/b/ }":                               {out: "a\nb\n"},
+	"out a && out b || out c; out d":                                    {out: "a\nb\nd\n"},
+	"false || out e -> cast str":                                        {out: "e\n"},
+	"function vtf { out yes; return 1 }; vtf -> if { out T } { out F }": {out: "F\n"},
+	"function vse { out ${out sub} -> null; err first }; vse -> out mid; err second": {out: "mid\n", err: "first\nsecond\n", hasErr: true},
+	"a [1..9] -> foreach v { out $v } -> set x; out $x":                              {out: "1\n2\n3\n4\n5\n6\n7\n8\n9\n"},
+	"a [1..9] -> foreach v { out $v } -> count":                                      {out: "9"},
+	"a [1..9] -> foreach v { out $v } -> regexp m/[3-6]/":                            {out: "3\n4\n5\n6\n"},
+	"a [1..9] -> set v; out $v":                                                      {out: "1\n2\n3\n4\n5\n6\n7\n8\n9\n"},
+}
 
 func c03Programs(quick bool) []string {
 	if quick {
@@ -98,6 +134,11 @@ func c03Scenario(prog string, free Result) *sched.Scenario {
 				o.Clause, o.Detail = "always-finishes", "Execute did not return"
 				return o
 			}
+			if exp, ok := c03Expected[strings.TrimPrefix(prog, smallBufPrefix)]; ok && (res.Out != exp.out || exp.hasErr && res.Err != exp.err) {
+				o.Clause = "sequential-meaning"
+				o.Detail = fmt.Sprintf("this schedule: out=%q err=%q exit=%d; the program means out=%q", res.Out, res.Err, res.Exit, exp.out)
+				return o
+			}
 			if res != free {
 				o.Clause = "same-result-under-any-schedule"
 				o.Detail = fmt.Sprintf("this schedule: out=%q err=%q exit=%d; free-running: out=%q err=%q exit=%d", res.Out, res.Err, res.Exit, free.Out, free.Err, free.Exit)
@@ -134,7 +175,7 @@ func c03Scenarios(quick bool) []*sched.Scenario {
 func init() {
 	vlib.Register(&vlib.Check{
 		ID: "C03", Engine: "E1",
-		Rule: "each listed sequential murex program (stages out/tout/a/%[] x filters foreach/format/msort/index/match/count/cast/set/regexp, if/switch/function/try/&&/||) is executed by the real interpreter (whole module instrumented) under the controlled scheduler; ALL schedules with at most B deviations from the default schedule (a deviation = a preemption, offered at operations on shared-visible objects (streams, process table, wait channels, variable tables, goroutine start, or a forced switch to a thread other than the lowest-numbered enabled one) are enumerated by stateless DFS; every schedule must terminate and give the same (stdout, stderr, exit number) as the free-running execution; non-trivial = schedules with at least one deviation",
+		Rule: "each listed sequential murex program (stages out/tout/a/%[] x filters foreach/format/msort/index/match/count/cast/set/regexp, if/switch/function/try/&&/||) is executed by the real interpreter (whole module instrumented) under the controlled scheduler; ALL schedules with at most B deviations from the default schedule (a deviation = a preemption, offered at operations on shared-visible objects (streams, process table, wait channels, variable tables, goroutine start, or a forced switch to a thread other than the lowest-numbered enabled one) are enumerated by stateless DFS; every schedule must terminate and give the same (stdout, stderr, exit number) as the free-running execution (and, for the programs with a literal expectation, that expectation); non-trivial = schedules with at least one deviation",
 		Run: func(c *vlib.Ctx) {
 			Init(c.WorkDir)
 			b := 1
